@@ -27,6 +27,7 @@ look-ahead crosses the cut; distinct = distinct case hashes.",
     ],
     run,
     replay,
+    from_bytes: Some(from_bytes),
 };
 
 pub fn check_case(c: &Case, env: &Env) -> CheckResult {
@@ -114,7 +115,7 @@ fn run(ctx: &Ctx, env: &Env) -> Stats {
                     let w = r.word().bits();
                     let mut part = Part::new(ctx, format!("cut/codes/{}", cfg.name()), "code menu x values x every residue before the item x every cut", true);
                     let f = |c: &Case| check_case(c, env);
-                    let step = if ctx.quick() && w >= 32 { 5 } else { 1 };
+                    let step = if ctx.quick() && w >= 32 { 3 } else { 1 };
                     for (call, vals) in call_menu() {
                         for &v in &vals {
                             for res in (0..w).step_by(step).chain([w - 1]) {
@@ -131,7 +132,7 @@ fn run(ctx: &Ctx, env: &Env) -> Stats {
                                 ops.push(ROp::Code(call));
                                 let ops = with_pos(ops);
                                 for cut in 0..=words {
-                                    part.check(&RCase { cfg, img: img.clone(), cut_words: Some(cut as u32), ops: ops.clone() }, &f);
+                                    part.check(&RCase { cfg, img: img.clone(), cut_words: Some(cut as u32), ops: ops.clone(), free: false }, &f);
                                 }
                             }
                         }
@@ -168,7 +169,7 @@ fn run(ctx: &Ctx, env: &Env) -> Stats {
                                     ops.push(nx);
                                     ops.push(ROp::Bits(1));
                                     ops.push(ROp::Peek(1));
-                                    part.check(&RCase { cfg, img: img.clone(), cut_words: None, ops: with_pos(ops) }, &f);
+                                    part.check(&RCase { cfg, img: img.clone(), cut_words: None, ops: with_pos(ops), free: false }, &f);
                                 }
                             }
                         }
@@ -178,7 +179,7 @@ fn run(ctx: &Ctx, env: &Env) -> Stats {
             }
         }
     }
-    let n_rand = ctx.t(8_000u64, 300_000);
+    let n_rand = ctx.t(15_000u64, 500_000);
     for j in 0..16 {
         jobs.push(Box::new(move |ctx: &Ctx| {
             let mut part = Part::new(ctx, format!("random/streams/{}", j), "proptest byte strings decoded into item streams; every cut 0..=words is executed", false);
@@ -190,7 +191,7 @@ fn run(ctx: &Ctx, env: &Env) -> Stats {
 }
 
 /// A generated case with `cut_words = None` stands for all its cuts.
-fn check_all_cuts(c: &Case, env: &Env) -> CheckResult {
+pub fn check_all_cuts(c: &Case, env: &Env) -> CheckResult {
     if c.cut_words.is_some() {
         return check_case(c, env);
     }
@@ -227,10 +228,16 @@ pub fn gen_case(s: &mut Src) -> Case {
         ops.extend(rop_for_item(s, it));
     }
     let img = Img::Items { items, tail: Pat::Zeros, tail_bits: 0, seed: 0 };
-    RCase { cfg, img, cut_words: None, ops: with_pos(ops) }
+    RCase { cfg, img, cut_words: None, ops: with_pos(ops), free: false }
 }
 
 fn replay(v: &serde_json::Value, env: &Env) -> CheckResult {
     let c: Case = serde_json::from_value(v.clone()).map_err(|e| Failure::new("replay/parse", e.to_string()))?;
     run_guarded(&c, &|c: &Case| check_all_cuts(c, env))
+}
+
+fn from_bytes(data: &[u8], env: &Env) -> (serde_json::Value, CheckResult) {
+    let c = gen_case(&mut Src::new(data));
+    let r = run_guarded(&c, &|c| check_all_cuts(c, env));
+    (serde_json::to_value(&c).unwrap_or(serde_json::Value::Null), r)
 }
